@@ -46,7 +46,18 @@ impl<W: Write + Seek> DbcWriter<W> {
 
         // Calculate header values
         let record_count = record_set.len() as u32;
-        let field_count = schema.fields.len() as u32;
+        // Every array element is a column of its own (this is what Schema::validate expects when reading)
+        let field_count = schema
+            .fields
+            .iter()
+            .map(|f| {
+                if f.is_array {
+                    f.array_size.unwrap_or(0)
+                } else {
+                    1
+                }
+            })
+            .sum::<usize>() as u32;
         let record_size = schema.record_size() as u32;
         let string_block_size = string_block.len() as u32;
 
